@@ -485,3 +485,219 @@ Section Shape.
       rewrite M. simpl. now rewrite H0.
   Qed.
 End Shape.
+
+(** * Tokenizer round-trip: rendering a list of parts and parsing it gives the parts back.
+    This ties the item-level theorems (C08) to concrete strings of the grammar. *)
+Definition name_char_ok (c : ascii) : bool :=
+  negb (Ascii.eqb c lbrace || Ascii.eqb c rbrace || Ascii.eqb c "["%char || Ascii.eqb c "]"%char
+        || Ascii.eqb c ":"%char || Ascii.eqb c "!"%char).
+
+Fixpoint name_ok (s : string) : bool :=
+  match s with
+  | EmptyString => true
+  | String c r => name_char_ok c && name_ok r
+  end.
+
+Definition is_term (c : ascii) : bool :=
+  Ascii.eqb c rbrace || Ascii.eqb c ":"%char || Ascii.eqb c "!"%char.
+
+Lemma name_char_ok_not_term c : name_char_ok c = true ->
+  Ascii.eqb c lbrace = false /\ Ascii.eqb c rbrace = false /\ Ascii.eqb c ":"%char = false
+  /\ Ascii.eqb c "!"%char = false /\ Ascii.eqb c "["%char = false.
+Proof.
+  unfold name_char_ok. rewrite negb_true_iff, !orb_false_iff. tauto.
+Qed.
+
+Lemma read_name_plain name : forall t rest fuel,
+  name_ok name = true -> is_term t = true -> (String.length name < fuel)%nat ->
+  read_name fuel (name ++ String t rest) = Ok (name, t, rest).
+Proof.
+  induction name as [|c name IH]; intros t rest fuel Hn Ht Hf.
+  - destruct fuel; [simpl in Hf; lia|]. simpl.
+    unfold is_term in Ht.
+    destruct (Ascii.eqb t lbrace) eqn:E1.
+    { apply Ascii.eqb_eq in E1. subst t. discriminate Ht. }
+    rewrite Ht. reflexivity.
+  - destruct fuel; [simpl in Hf; lia|]. simpl in Hn. apply andb_true_iff in Hn. destruct Hn as [Hc Hn].
+    destruct (name_char_ok_not_term c Hc) as (E1 & E2 & E3 & E4 & E5).
+    simpl. rewrite E1, E2, E3, E4, E5. simpl.
+    rewrite (IH t rest fuel Hn Ht) by (simpl in Hf; lia). reflexivity.
+Qed.
+
+Lemma read_spec_plain spec : forall rest,
+  no_brace spec = true -> read_spec (spec ++ String rbrace rest) 1 = Ok (spec, rest).
+Proof.
+  induction spec as [|c spec IH]; intros rest Hs; simpl.
+  - reflexivity.
+  - simpl in Hs. apply andb_true_iff in Hs. destruct Hs as [Hc Hs].
+    apply negb_true_iff in Hc. unfold is_brace in Hc. apply orb_false_iff in Hc. destruct Hc as [C1 C2].
+    rewrite C1, C2. rewrite (IH rest Hs). reflexivity.
+Qed.
+
+Definition conv_text (cv : option ascii) : string :=
+  match cv with Some c => String "!"%char (String c EmptyString) | None => EmptyString end.
+
+Definition spec_text (sp : string) : string :=
+  match sp with EmptyString => EmptyString | _ => String ":"%char sp end.
+
+(** the text of a field after its opening brace *)
+Definition field_body (f : field) : string :=
+  let '(name, sp, cv) := f in name ++ conv_text cv ++ spec_text sp ++ String rbrace EmptyString.
+
+Definition field_ok (f : field) : Prop :=
+  let '(name, sp, cv) := f in name_ok name = true /\ no_brace sp = true.
+
+Lemma parse_field_shape name t r :
+  name_ok name = true -> is_term t = true ->
+  parse_field (name ++ String t r) =
+  (if Ascii.eqb t rbrace then Ok ((name, EmptyString, None), r)
+   else if Ascii.eqb t "!"%char then
+     match r with
+     | EmptyString => Err "ValueError" "end of string while looking for conversion specifier"
+     | String cv r1 =>
+         match r1 with
+         | EmptyString => Err "ValueError" "unmatched '{' in format spec"
+         | String c2 r2 =>
+             if Ascii.eqb c2 rbrace then Ok ((name, EmptyString, Some cv), r2)
+             else if Ascii.eqb c2 ":"%char then
+               let* (sp, rest) := read_spec r2 1 in Ok ((name, sp, Some cv), rest)
+             else Err "ValueError" "expected ':' after conversion specifier"
+         end
+     end
+   else let* (sp, rest) := read_spec r 1 in Ok ((name, sp, None), rest)).
+Proof.
+  intros Hn Ht. unfold parse_field.
+  rewrite (read_name_plain name t r (S (String.length (name ++ String t r))) Hn Ht).
+  - reflexivity.
+  - assert (L : forall a b : string, String.length (a ++ b) = (String.length a + String.length b)%nat)
+      by (induction a; simpl; intros; auto).
+    rewrite L. simpl. lia.
+Qed.
+
+Lemma parse_field_render f rest :
+  field_ok f -> parse_field (field_body f ++ rest) = Ok (f, rest).
+Proof.
+  destruct f as [[name sp] cv]. intros [Hn Hs]. unfold field_body.
+  rewrite !append_assoc_s.
+  destruct cv as [c|]; destruct sp as [|s0 sp'].
+  - change (name ++ conv_text (Some c) ++ spec_text "" ++ String rbrace "" ++ rest)
+      with (name ++ String "!"%char (String c (String rbrace rest))).
+    rewrite (parse_field_shape name "!"%char _ Hn eq_refl).
+    replace (Ascii.eqb "!"%char rbrace) with false by reflexivity.
+    replace (Ascii.eqb "!"%char "!"%char) with true by reflexivity.
+    cbv iota. now rewrite Ascii.eqb_refl.
+  - change (name ++ conv_text (Some c) ++ spec_text (String s0 sp') ++ String rbrace "" ++ rest)
+      with (name ++ String "!"%char (String c (String ":"%char (String s0 sp' ++ String rbrace rest)))).
+    rewrite (parse_field_shape name "!"%char _ Hn eq_refl).
+    replace (Ascii.eqb "!"%char rbrace) with false by reflexivity.
+    replace (Ascii.eqb "!"%char "!"%char) with true by reflexivity.
+    cbv iota.
+    replace (Ascii.eqb ":"%char rbrace) with false by reflexivity.
+    replace (Ascii.eqb ":"%char ":"%char) with true by reflexivity.
+    rewrite (read_spec_plain (String s0 sp') rest Hs). reflexivity.
+  - change (name ++ conv_text None ++ spec_text "" ++ String rbrace "" ++ rest)
+      with (name ++ String rbrace rest).
+    rewrite (parse_field_shape name rbrace _ Hn eq_refl). now rewrite Ascii.eqb_refl.
+  - change (name ++ conv_text None ++ spec_text (String s0 sp') ++ String rbrace "" ++ rest)
+      with (name ++ String ":"%char (String s0 sp' ++ String rbrace rest)).
+    rewrite (parse_field_shape name ":"%char _ Hn eq_refl).
+    replace (Ascii.eqb ":"%char rbrace) with false by reflexivity.
+    replace (Ascii.eqb ":"%char "!"%char) with false by reflexivity.
+    rewrite (read_spec_plain (String s0 sp') rest Hs). reflexivity.
+Qed.
+
+Lemma read_lit_app_brace lit b r :
+  no_brace lit = true -> is_brace b = true ->
+  read_lit (lit ++ String b r) = (lit, Some (b, r)).
+Proof.
+  intros Hl Hb. induction lit as [|c lit IH]; simpl.
+  - unfold is_brace in Hb. rewrite Hb. reflexivity.
+  - simpl in Hl. apply andb_true_iff in Hl. destruct Hl as [Hc Hl].
+    apply negb_true_iff in Hc. unfold is_brace in Hc. rewrite Hc, (IH Hl). reflexivity.
+Qed.
+
+Lemma read_lit_no_brace s : no_brace s = true -> read_lit s = (s, None).
+Proof.
+  induction s as [|c s IH]; simpl; intros H; [reflexivity|].
+  apply andb_true_iff in H. destruct H as [Hc Hs].
+  apply negb_true_iff in Hc. unfold is_brace in Hc. rewrite Hc, (IH Hs). reflexivity.
+Qed.
+
+Fixpoint render_parts (fs : list (string * field)) (tail : string) : string :=
+  match fs with
+  | [] => tail
+  | (lit, f) :: r => lit ++ String lbrace (field_body f ++ render_parts r tail)
+  end.
+
+Definition items_of (fs : list (string * field)) (tail : string) : list item :=
+  (map (fun lf : string * field => (fst lf, Some (snd lf))) fs
+   ++ match tail with EmptyString => [] | _ => [(tail, None)] end)%list.
+
+Definition part_ok (lf : string * field) : Prop := no_brace (fst lf) = true /\ field_ok (snd lf).
+
+Lemma field_body_first_not_lbrace f rest :
+  field_ok f -> exists d r', field_body f ++ rest = String d r' /\ Ascii.eqb lbrace d = false.
+Proof.
+  destruct f as [[name sp] cv]. intros [Hn _]. unfold field_body.
+  destruct name as [|c name].
+  - destruct cv as [c|]; [eexists; eexists; split; [reflexivity|reflexivity]|].
+    destruct sp; simpl; eexists; eexists; split; reflexivity.
+  - simpl in Hn. apply andb_true_iff in Hn. destruct Hn as [Hc _].
+    destruct (name_char_ok_not_term c Hc) as (E1 & _).
+    exists c. eexists. split; [reflexivity|]. rewrite Ascii.eqb_sym. exact E1.
+Qed.
+
+Lemma parse_fmt_render fs : forall tail fuel,
+  Forall part_ok fs -> no_brace tail = true ->
+  (String.length (render_parts fs tail) < fuel)%nat ->
+  parse_fmt fuel (render_parts fs tail) = (items_of fs tail, PEnd).
+Proof.
+  induction fs as [|[lit f] fs IH]; intros tail fuel Hall Ht Hf.
+  - simpl in *. destruct fuel; [lia|]. unfold items_of. simpl.
+    destruct tail as [|c t]; [reflexivity|].
+    rewrite (read_lit_no_brace _ Ht). reflexivity.
+  - inversion Hall as [|? ? [Hl Hfo] Hrest]; subst. simpl in Hl, Hfo.
+    destruct fuel; [simpl in Hf; lia|].
+    cbn [render_parts] in *.
+    assert (Hne : lit ++ String lbrace (field_body f ++ render_parts fs tail) <> EmptyString)
+      by (destruct lit; discriminate).
+    cbn [parse_fmt].
+    destruct (lit ++ String lbrace (field_body f ++ render_parts fs tail)) as [|e1 e2] eqn:Es; [congruence|].
+    rewrite <- Es.
+    rewrite (read_lit_app_brace lit lbrace _ Hl) by reflexivity.
+    destruct (field_body_first_not_lbrace f (render_parts fs tail) Hfo) as (d & r' & Hd & Hneq).
+    rewrite Hd. rewrite Hneq.
+    replace (Ascii.eqb lbrace rbrace) with false by reflexivity.
+    rewrite <- Hd. rewrite (parse_field_render f _ Hfo).
+    assert (Hlen : (String.length (render_parts fs tail) < fuel)%nat).
+    { rewrite <- Es in Hf. clear - Hf.
+      assert (L : forall a b : string, String.length (a ++ b) = (String.length a + String.length b)%nat)
+        by (induction a; simpl; intros; auto).
+      rewrite L in Hf. simpl in Hf. rewrite L in Hf. lia. }
+    rewrite (IH tail fuel Hrest Ht Hlen). unfold items_of. reflexivity.
+Qed.
+
+Theorem parse_render fs tail :
+  Forall part_ok fs -> no_brace tail = true ->
+  parse (render_parts fs tail) = (items_of fs tail, PEnd).
+Proof. intros. unfold parse. apply parse_fmt_render; auto. Qed.
+
+Lemma keep_type_render ctx rec fs tail is_rec :
+  Forall part_ok fs -> no_brace tail = true ->
+  keep_type ctx rec (render_parts fs tail) is_rec = keep_items ctx rec is_rec (items_of fs tail) PEnd.
+Proof. intros Hf Ht. unfold keep_type. now rewrite (parse_render fs tail Hf Ht). Qed.
+
+(** the single-expression rule, on the concrete string "{name}" for every well-formed name *)
+Lemma keep_type_single_string ctx rec name is_rec :
+  name_ok name = true ->
+  keep_type ctx rec (String lbrace (name ++ String rbrace EmptyString)) is_rec
+  = (let* obj := lookup_field ctx name in rec obj is_rec).
+Proof.
+  intros Hn.
+  assert (E : String lbrace (name ++ String rbrace EmptyString)
+              = render_parts [(EmptyString, (name, EmptyString, None))] EmptyString).
+  { cbn [render_parts field_body conv_text spec_text append]. now rewrite append_nil_r. }
+  rewrite E.
+  rewrite keep_type_render; [apply keep_items_single| |reflexivity].
+  constructor; [|constructor]. split; [reflexivity|]. split; [exact Hn|reflexivity].
+Qed.
